@@ -79,12 +79,48 @@ def apply_patch(dst, patch):
   return None
 
 
+def apply_transform(dst, name):
+  """whole-tree behaviour-preserving transformations (twins for every property)."""
+  import ast
+  if name == 'rename':
+    r = subprocess.run([sys.executable, '-B', os.path.join(VERIF, 'tools', 'rename_locals.py'),
+                        dst, '--comps', '--params'], capture_output=True, text=True)
+    return None if r.returncode == 0 else 'rename_locals failed: ' + r.stderr[-200:]
+  if name == 'unparse':
+    for dp, dn, fn in os.walk(dst):
+      for f in fn:
+        if f.endswith('.py'):
+          p = os.path.join(dp, f)
+          try:
+            t = ast.parse(open(p, encoding='utf-8').read())
+          except SyntaxError:
+            continue
+          open(p, 'w', encoding='utf-8').write(ast.unparse(t) + '\n')
+    return None
+  if name in ('flatten', 'swap', 'membership', 'eqchain', 'reorder'):
+    r = subprocess.run([sys.executable, '-B', os.path.join(VERIF, 'tools', 'transforms.py'),
+                        name, dst], capture_output=True, text=True)
+    return None if r.returncode == 0 else 'transform failed: ' + r.stderr[-200:]
+  return 'unknown transform ' + name
+
+
+def transform_entries(props):
+  out = []
+  for pid in props:
+    for t in ('rename', 'unparse', 'flatten', 'swap', 'membership', 'eqchain', 'reorder'):
+      out.append(dict(id='twin-%s-%s' % (t, pid), prop=pid, kind='twin',
+                      transform=t, edits=[], rule=None))
+  return out
+
+
 def run_one(entry, root):
   tmp = tempfile.mkdtemp(prefix='vsf_')
   try:
     dst = os.path.join(tmp, 'repo')
     make_copy(root, dst)
-    if entry.get('patch'):
+    if entry.get('transform'):
+      err = apply_transform(dst, entry['transform'])
+    elif entry.get('patch'):
       err = apply_patch(dst, entry['patch'])
     else:
       err = apply_edits(dst, entry['edits'])
@@ -114,7 +150,8 @@ def run_one(entry, root):
 
 
 def run(prop=None, jobs=16, root='/repo', only=None, quiet=False):
-  entries = [e for e in CATALOGUE + seeded_entries()
+  props = sorted({e['prop'] for e in CATALOGUE})
+  entries = [e for e in CATALOGUE + seeded_entries() + transform_entries(props)
              if (prop is None or e['prop'] == prop) and
              (only is None or e['id'] == only)]
   results = []
